@@ -15,7 +15,7 @@ from __future__ import annotations
 import ast
 from typing import Dict, List, Optional, Set, Tuple
 
-from ..astq import calls, exc_class_of_raise, is_contextmanager, kwarg, params, raises_in, stmts
+from ..astq import assignments, calls, exc_class_of_raise, is_contextmanager, kwarg, local_from, params, raises_in, stmts
 from ..callgraph import fkey
 from ..cfg import CFG, always_exits, cond_atoms
 from ..report import Check
@@ -74,6 +74,8 @@ def run(chk: Check, proj: Project) -> None:
     s2a_generators(chk, proj, w)
     s2b_push_pop(chk, proj, w)
     s3_handlers(chk, proj, w)
+    s3b_live_iteration(chk, proj, w)
+    s3c_queue_items_immutable(chk, proj, w)
     chk.call_sites = w.cg.n_calls
 
 
@@ -445,9 +447,9 @@ def s2b_push_pop(chk: Check, proj: Project, w) -> None:
             if isinstance(st, ast.Expr) and isinstance(st.value, ast.Call) and isinstance(st.value.func, ast.Attribute) and st.value.func.attr in _PUSH:
                 recv = norm(st.value.func.value)
                 root = recv.split(".")[0].split("[")[0]
-                if "." not in recv:
-                    continue  # a local list / queue
                 is_held = root in held.get(fk, set()) or (root == "self" and q.startswith("Component."))
+                if "." not in recv and not (is_held and st.value.func.attr == "push"):
+                    continue  # a local list / queue (a held Context's own push()/pop() does count)
                 if root in params(f) or enclosing_func(f) is not None:
                     pushes.append((st.value, recv, is_held))
         for call, recv, is_held in pushes:
@@ -560,6 +562,79 @@ def _purity(chk: Check, m, q: str, h: ast.ExceptHandler) -> None:
             chk.violated("S3", key + ":" + short(node, 60), m.loc(node), msg)
     else:
         chk.holds("S3", key, m.loc(h), "nothing between handler entry and re-raise can raise on an arbitrary exception payload")
+
+
+def s3b_live_iteration(chk: Check, proj: Project, w) -> None:
+    chk.rule("S3b", "cleanup code never iterates a registry (or the set stored in it) while the loop body can remove from it: such a loop raises RuntimeError, which replaces the user's exception and skips the rest of the cleanup")
+    n = 0
+    regs = w.registries()
+    names = {g.name: gk for gk, g in regs.items()}
+    for m, q, f in proj.all_funcs():
+        if not m.name.endswith(("perfutil.provide", "perfutil.component")) and not q.startswith("Component._render"):
+            continue
+        for loop in [x for x in body_walk(f) if isinstance(x, ast.For)]:
+            it = loop.iter
+            # which registry does the iterable belong to (directly, or as the element stored under a key)?
+            mentioned = [nm for nm in names if any(isinstance(x, ast.Name) and x.id == nm for x in ast.walk(it))]
+            alias = None
+            if isinstance(it, ast.Name):
+                for _s, v in assignments(f, it.id):
+                    if v is not None:
+                        mentioned += [nm for nm in names if any(isinstance(x, ast.Name) and x.id == nm for x in ast.walk(v))]
+                        alias = it.id
+            if not mentioned:
+                continue
+            n += 1
+            gk = names[mentioned[0]]
+            snapshot = isinstance(it, ast.Call) and isinstance(it.func, ast.Name) and it.func.id in ("list", "tuple", "sorted", "set", "frozenset") or (isinstance(it, ast.Call) and isinstance(it.func, ast.Attribute) and it.func.attr == "copy")
+            # does the body remove from that registry (or its elements)?
+            removes = False
+            for c in calls(loop.body):
+                for op, g2, _spec in w.summ.call_effects(m, f, c):
+                    if op == "remove" and g2.split("[")[0] == gk:
+                        removes = True
+            for op, g2, _k, site in w.summ.sites.get(fkey(m, f), []):
+                if op == "remove" and g2.split("[")[0] == gk and any(a is loop for a in ancestors(site)):
+                    removes = True
+            key = f"{m.name.replace('django_components.', '')}:{q}:for {short(loop.target, 20)} in {short(it, 50)}"
+            if removes and not snapshot:
+                chk.violated("S3b", key, m.loc(loop), f"`for {short(loop.target)} in {short(it)}` iterates {mentioned[0]} (or the set stored in it) directly while the loop body removes from it: the loop raises 'changed size during iteration', the RuntimeError replaces the user's exception and the remaining cleanup is skipped (provided data stays in the cache)")
+            else:
+                chk.holds("S3b", key, m.loc(loop), "iterates a snapshot" if snapshot else "the loop body does not remove from the iterated registry")
+    chk.floor("S3b", n, 2)
+
+
+def s3c_queue_items_immutable(chk: Check, proj: Project, w) -> None:
+    chk.rule("S3c", "records in the post-render queue are immutable: a value read from a queue item is never mutated in place (the error path annotation must be a fresh list per component)")
+    r = proj.try_func("perfutil.component", "_render_component_tree") or proj.try_func("perfutil.component", "component_post_render")
+    m, f = r  # type: ignore[misc]
+    item = local_from(f, lambda v: isinstance(v, ast.Call) and isinstance(v.func, ast.Attribute) and v.func.attr in ("popleft", "pop") and "queue" in norm(v.func.value))
+    if item is None:
+        chk.undecided("S3c", "perfutil.component:queue-item", m.loc(f), "queue item variable not found")
+        return
+    aliases = {item}
+    for st, v in [(s_, s_.value) for s_ in stmts(f) if isinstance(s_, (ast.Assign, ast.AnnAssign)) and s_.value is not None]:
+        tg = st.targets[0] if isinstance(st, ast.Assign) else st.target
+        if isinstance(tg, ast.Name) and isinstance(v, ast.Attribute) and isinstance(v.value, ast.Name) and v.value.id == item:
+            aliases.add(tg.id)
+    bad = []
+    for x in body_walk(f):
+        if isinstance(x, ast.Call) and isinstance(x.func, ast.Attribute) and x.func.attr in ("append", "extend", "insert", "pop", "remove", "clear", "sort", "reverse", "update"):
+            base = x.func.value
+            root = base
+            while isinstance(root, ast.Attribute):
+                root = root.value
+            if isinstance(root, ast.Name) and root.id in aliases and not (isinstance(base, ast.Name) and base.id == item):
+                bad.append(x)
+        if isinstance(x, ast.AugAssign):
+            root = x.target
+            while isinstance(root, (ast.Attribute, ast.Subscript)):
+                root = root.value
+            if isinstance(root, ast.Name) and root.id in aliases - {item}:
+                bad.append(x)
+    chk.ob("S3c", "perfutil.component:queue-items-not-mutated", m.loc(bad[0]) if bad else m.loc(f), not bad,
+           f"nothing read from `{item}` is mutated in place" if not bad else
+           f"`{short(bad[0])}` mutates a value that belongs to the queue item `{item}` (shared by every item created from the same parent): the component path attached to an error names earlier siblings and their descendants instead of the failing component's ancestors")
 
 
 MANIFEST = {
